@@ -47,9 +47,17 @@ try:
         ok = (r0 == 0 and r1 != 0 and t.returncode == 0)
         touched = (d / 'patch.diff').read_text()
         if ok and (a.e2e or any(x in touched for x in ('network/', 'transfer/', 'client.py', 'distributed.py', 'search/manager', 'peer.py', 'user/manager', 'room/manager'))):
-            e = subprocess.run(['flock', '/tmp/seed/e2e.lock', '/venv/bin/python', '-m', 'pytest', '-q', '-p', 'no:cacheprovider', '--timeout=900', 'tests/e2e'],
+            e = subprocess.run(['flock', '/tmp/seed/e2e.lock', '/venv/bin/python', '-m', 'pytest', '-q', '-p', 'no:cacheprovider', '--timeout=900', '-ra', 'tests/e2e'],
                                cwd=wt, env=env, capture_output=True, text=True, timeout=3600)
             ran.append(f'pytest tests/e2e with patch: exit {e.returncode} ({e.stdout.strip().splitlines()[-1] if e.stdout.strip() else ""})')
+            if e.returncode != 0:
+                # the e2e suite binds fixed local ports; other jobs on this machine can collide with it: retry once
+                failed = [l for l in e.stdout.splitlines() if l.startswith(('FAILED', 'ERROR'))]
+                ran.append('   failing: ' + '; '.join(failed)[:600])
+                e = subprocess.run(['flock', '/tmp/seed/e2e.lock', '/venv/bin/python', '-m', 'pytest', '-q', '-p', 'no:cacheprovider', '--timeout=900', '-ra', 'tests/e2e'],
+                                   cwd=wt, env=env, capture_output=True, text=True, timeout=3600)
+                failed = [l for l in e.stdout.splitlines() if l.startswith(('FAILED', 'ERROR'))]
+                ran.append(f'pytest tests/e2e with patch (retry): exit {e.returncode} ({e.stdout.strip().splitlines()[-1] if e.stdout.strip() else ""}) ' + '; '.join(failed)[:600])
             ok = ok and e.returncode == 0
 finally:
     subprocess.run(['git', '-C', '/repo', 'worktree', 'remove', '--force', str(wt)], capture_output=True)
